@@ -13,4 +13,5 @@ import (
 	_ "verif/c12"
 	_ "verif/c14"
 	_ "verif/c15"
+	_ "verif/c16"
 )
